@@ -203,6 +203,7 @@ def run(rep, info, model, tier, seed):
     scs = [gen(rnd) for _ in range(n)] + [gen(rnd, long_fail=True) for _ in range(6 if tier == "quick" else 40)]
     reqs = [to_sx(sc) for sc in scs]
     mod = model.run(reqs) if model is not None else [None] * len(scs)
+    rep.watch_extraction(model, reqs)
     dis = 0
     for sc, m in zip(scs, mod):
         items, ws, log, ended = run_impl_persist(sc)
